@@ -252,7 +252,29 @@ def aggregates_all_trees(ck, prog):
             res = Resolver(b)
             lp = _tree_loop_exit(b, res)
             if not lp:
-                ck.violation(rule, inst, b.path, f"{b.loc[0]}:{b.loc[1]}", expected="a loop over self.trees", found="no such loop recognised")
+                # iterator form: self.trees.iter()...{fold|sum|for_each|count|product}(..) consumes every tree unless the chain
+                # contains a truncating adaptor
+                from sa.prov import subterms as _st
+                full, trunc = [], []
+                for bb, t in b.calls():
+                    f = t.get("f")
+                    if not (f and f["path"].endswith(("Iterator::fold", "Iterator::sum", "Iterator::for_each", "Iterator::count",
+                                                      "Iterator::product", "Iterator::collect"))) or not t["args"]:
+                        continue
+                    recv = res.operand(t["args"][0])
+                    if not any(x[0] == "field" and x[2] == "trees" and x[1][0] == "arg" and x[1][1] == 1 for x in _st(recv)):
+                        continue
+                    bad = [x[1].split("::")[-1] for x in _st(recv) if x[0] == "call" and x[1].endswith(
+                        ("::take", "::take_while", "::skip", "::skip_while", "::step_by", "::nth", "::map_while", "::scan"))]
+                    (trunc if bad else full).append((bb, bad))
+                if full and not trunc:
+                    ck.ok(rule, inst, b.path, b.where(full[0][0]), "iterator form: a full-consumption adaptor over iter(self.trees), no truncating adaptor in the chain")
+                elif trunc:
+                    ck.violation(rule, inst, b.path, b.where(trunc[0][0]), expected="every member tree contributes",
+                                 found=f"the iterator over self.trees is truncated by {trunc[0][1]}")
+                else:
+                    ck.violation(rule, inst, b.path, f"{b.loc[0]}:{b.loc[1]}", expected="a loop (or a full-consumption iterator chain) over self.trees",
+                                 found="neither recognised")
                 continue
             sw, body_dst, exit_dst = lp
             be = G.back_edges(b)
